@@ -1475,3 +1475,96 @@ Lemma wit3_reachable :
   prun (pstep (world0 false ex_nodes) (PIpam (OConfigure ex_conf3 false []))).1
        [PEnv (EPodPut wit3_pod); PEnv (EInformer (pk wit3_pod))] = wit3.
 Proof. vm_compute. reflexivity. Qed.
+
+(** * filter then bind with exactly ONE requested range list that has no IP of the key yet *)
+
+Lemma elem_of_free_in_ranges s rs x : x ∈ free_in_ranges s rs ↔ x ∈ i_unalloc s ∧ in_ranges rs x = true.
+Proof.
+  unfold in_ranges. induction rs as [|r rs IH]; simpl; [split; [intros H; inversion H|intros [_ ?]; done]|].
+  rewrite elem_of_app, IH, elem_of_list_In, filter_In, <- elem_of_list_In, elem_of_elements, orb_true_iff. naive_solver.
+Qed.
+
+Lemma alloc_ranges_one s key sn rs a x : Inv2 s → x ∈ i_unalloc s → in_ranges rs x = true →
+  ip_has_subnet (i_pools s) x sn = true → ∃ s' ip, alloc_ranges s key sn [rs] a None = (s', AOk, [ip]).
+Proof.
+  intros HI2 Hx Hin Hsn. unfold alloc_ranges. cbn [pick_ips].
+  set (f := λ ip : N, subnet_candidate s sn ip && negb (existsb (N.eqb ip) [])).
+  destruct (first_in_ranges_total f rs (ranges_fuel rs)) as (o & Ho & Hnone); [unfold ranges_fuel; lia|].
+  rewrite Ho. destruct o as [ip|].
+  2:{ exfalso. specialize (Hnone eq_refl x Hin). unfold f, subnet_candidate in Hnone.
+      rewrite bool_decide_eq_true_2, Hsn in Hnone by done. discriminate. }
+  apply first_in_ranges_spec in Ho as [Hf _]. unfold f in Hf. apply andb_prop in Hf as [Hc _].
+  apply subnet_candidate_unalloc in Hc. cbn [rev app create_all]. unfold st_create.
+  destruct (i_store s !! ip) as [o|] eqn:Es.
+  { exfalso. destruct (inv2_store_alloc _ _ _ HI2 Es) as (e & He & _). destruct HI2 as [HI _].
+    by rewrite (inv_disj _ HI ip Hc) in He. }
+  eauto.
+Qed.
+
+Lemma filter_then_bind_one_missing_l w p nodes o fl w1 l ns name node o2 w2 r rs :
+  WInv w → w_pods w !! (ns, name) = Some p → pd_node p = [] → pd_ranges p ≠ [] →
+  missing_of (by_key_ranges (w_ipam w) (pod_key p) (pd_ranges p)) (pd_ranges p) = [rs] →
+  filter_section w p nodes o fl = (w1, FNodes l) → In node l →
+  w_lister w1 !! (ns, name) = Some p →
+  bind_section true true w1 ns name (pd_uid p) node o2 no_faults = (w2, r) →
+  (∃ ips, r = BOk ips) ∨
+  (r = BErr ∧ ∃ y ey, i_alloc (w_ipam w1) !! y = Some ey ∧ e_key ey = pod_key p ∧ e_uid ey ≠ [] ∧ e_uid ey ≠ pd_uid p).
+Proof.
+  intros HW Hp Hn Hr Hmiss Hf Hnode Hl Hb. pose proof (wi_ipam w HW) as HI2.
+  (* filter: unchanged world, and a free address of [rs] routable from the node *)
+  assert (w1 = w ∧ ∃ nip sn x, w_nodes w !! node = Some nip ∧ node_subnet (w_ipam w) nip = Some sn ∧
+            x ∈ i_unalloc (w_ipam w) ∧ in_ranges rs x = true ∧ ip_has_subnet (i_pools (w_ipam w)) x sn = true)
+    as (-> & nip & sn & x & Hnip & Hsn & Hx & Hxin & Hxsn).
+  { rewrite filter_section_unfold in Hf. destruct (pd_ranges p) as [|rs0 rss0] eqn:Er; [done|]. rewrite <- Er in *.
+    cbv zeta in Hf. rewrite Hmiss in Hf.
+    apply filter_cont_nodes in Hf as [(-> & Hll)|(Hnil & _)]; [|discriminate Hnil]. split; [done|].
+    destruct Hll as [->| ->]; apply in_filter_node_ok in Hnode as (_ & nip & sn & H1 & H2 & H3); [inversion H3|].
+    assert (sn ∈ node_subnets_by_ranges (w_ipam w) [rs]) as Hin.
+    { unfold restrict_subnets in H3. destruct (owned_subnets_of _ _); [done|]. by apply elem_of_sn_inter in H3 as [? _]. }
+    cbn [node_subnets_by_ranges subnets_by_ranges_from] in Hin.
+    destruct (free_in_ranges (w_ipam w) rs) as [|f0 fr] eqn:Efr; [inversion Hin|]. rewrite <- Efr in Hin.
+    apply elem_of_subnets_of_ips in Hin as (x & Hx & Hxsn). apply elem_of_free_in_ranges in Hx as [Hx Hxin].
+    by exists nip, sn, x. }
+  set (slots := by_key_ranges (w_ipam w) (pod_key p) (pd_ranges p)) in *.
+  rewrite bind_section_unfold, Hl, f2_guard_self in Hb.
+  assert (bind_slots (w_ipam w) p o2 = Some slots) as Hs.
+  { unfold bind_slots. by destruct (pd_ranges p). }
+  rewrite Hs in Hb. destruct (bind_guard (w_ipam w) p) eqn:Eg.
+  { right. inversion Hb; subst. split; [done|]. by apply bind_guard_true. }
+  left.
+  destruct (alloc_ranges_one (w_ipam w) (pod_key p) sn rs (bind_attr p node) x HI2 Hx Hxin Hxsn) as (s' & ip & Ha).
+  assert (bind_alloc w (pod_key p) node (pd_ranges p) slots (bind_attr p node) o2 no_faults =
+          Some (set_ipam w s', Some (somes (by_key_ranges s' (pod_key p) (pd_ranges p))))) as Hba.
+  { unfold bind_alloc. cbv zeta. fold (missing_of slots (pd_ranges p)). rewrite Hmiss, Hnip, Hsn.
+    change (f_store no_faults) with (@None nat). by rewrite Ha. }
+  rewrite Hba in Hb.
+  pose proof (inv2_alloc_ranges (w_ipam w) (pod_key p) sn [rs] (bind_attr p node) None HI2) as HI'. rewrite Ha in HI'. simpl in HI'.
+  destruct (bind_tail_ok (set_ipam w s') ns name p node (somes (by_key_ranges s' (pod_key p) (pd_ranges p))) (somes slots))
+    as (wa & wb & Hloop & Hapi); [done|done|done| |].
+  { intros z Hz _. apply elem_of_somes in Hz. by eapply by_key_ranges_keyed. }
+  rewrite Hloop, Hapi in Hb. inversion Hb; eauto.
+Qed.
+
+(** the requested range lists in which the key holds no IP yet *)
+Definition missing_ranges (i : ipam) (p : pod) : list (list range) :=
+  missing_of (by_key_ranges i (pod_key p) (pd_ranges p)) (pd_ranges p).
+
+(** filter then bind, all true cases together: no requested ranges, or at most one requested range list without an
+    IP of the key *)
+Lemma filter_then_bind_partial_l w p nodes o fl w1 l ns name node o2 w2 r :
+  WInv w → w_pods w !! (ns, name) = Some p → pd_node p = [] →
+  (pd_ranges p = [] ∨ List.length (missing_ranges (w_ipam w) p) ≤ 1)%nat →
+  filter_section w p nodes o fl = (w1, FNodes l) → In node l →
+  w_lister w1 !! (ns, name) = Some p →
+  bind_section true true w1 ns name (pd_uid p) node o2 no_faults = (w2, r) →
+  (∃ ips, r = BOk ips) ∨ r = BStuck ∨
+  (r = BErr ∧ ∃ y ey, i_alloc (w_ipam w1) !! y = Some ey ∧ e_key ey = pod_key p ∧ e_uid ey ≠ [] ∧ e_uid ey ≠ pd_uid p).
+Proof.
+  intros HW Hp Hn Hcase Hf Hnode Hl Hb.
+  destruct (decide (pd_ranges p = [])) as [Hr|Hr]; [by eapply filter_then_bind_noranges_l|].
+  destruct Hcase as [?|Hlen]; [done|]. unfold missing_ranges in Hlen.
+  destruct (missing_of _ _) as [|rs [|rs' m]] eqn:Em; [| |simpl in Hlen; lia].
+  - apply missing_nil_all_some in Em; [|rewrite by_key_ranges_map; apply map_length].
+    destruct (filter_then_bind_owned_l _ _ _ _ _ _ _ _ _ _ _ _ _ HW Hp Hn Hr Em Hf Hnode Hl Hb) as [?|?]; auto.
+  - destruct (filter_then_bind_one_missing_l _ _ _ _ _ _ _ _ _ _ _ _ _ _ HW Hp Hn Hr Em Hf Hnode Hl Hb) as [?|?]; auto.
+Qed.
